@@ -1336,3 +1336,81 @@ Section phaseD.
     - intros [Hn Ht]. destruct (decide (t ∈ uc)) as [|Hnt]; [done|]. destruct Hn. by apply Hrem.
   Qed.
 End phaseD.
+
+(** * [remove_conflict] does not look at the stored balance *)
+
+Definition rb_rc_step_out (U : gmap N tx) (fuel' : nat) (h : N) (acc : option store) (i : N) : option store :=
+  match acc with
+  | None => None
+  | Some s1 =>
+    match rb_remove_spenders U fuel' (Some s1) (default [] (unmined_inputs s1 !! (h, i))) with
+    | None => None
+    | Some s3 => Some (set_unmined_credits (delete (h, i)) s3)
+    end
+  end.
+
+Lemma rb_remove_conflict_unfold U fuel' h s :
+  remove_conflict U (S fuel') h s =
+  match U !! h with
+  | None => None
+  | Some t =>
+    match foldl (rb_rc_step_out U fuel' h) (Some s) (indices (t_outs t)) with
+    | None => None
+    | Some s4 => Some (set_unmined (delete h) (foldl (fun s' op => delete_unmined_input op h s') s4 (t_ins t)))
+    end
+  end.
+Proof. reflexivity. Qed.
+
+Section setbal.
+  Context (U : gmap N tx) (f : Z → Z).
+
+  Lemma rb_dui_set_bal op h s :
+    delete_unmined_input op h (set_bal f s) = set_bal f (delete_unmined_input op h s).
+  Proof.
+    unfold delete_unmined_input. simpl. destruct (unmined_inputs s !! op) as [[|a l]|]; try done.
+    destruct (filter (λ x, x ≠ h) (a :: l)); done.
+  Qed.
+
+  Lemma rb_dui_fold_set_bal h l : ∀ s,
+    foldl (fun s' op => delete_unmined_input op h s') (set_bal f s) l =
+    set_bal f (foldl (fun s' op => delete_unmined_input op h s') s l).
+  Proof. induction l as [|op l IH]; intros s; simpl; [done|]. by rewrite rb_dui_set_bal, IH. Qed.
+
+  Lemma rb_spenders_set_bal n :
+    (∀ t s, remove_conflict U n t (set_bal f s) = set_bal f <$> remove_conflict U n t s) →
+    ∀ sps o, rb_remove_spenders U n (set_bal f <$> o) sps = set_bal f <$> rb_remove_spenders U n o sps.
+  Proof.
+    intros IHrc. unfold rb_remove_spenders. induction sps as [|sp sps IH]; intros o; [done|].
+    cbn [foldl]. rewrite <- IH. f_equal.
+    destruct o as [s|]; simpl; [|done].
+    destruct (unmined s !! sp); [|done]. apply IHrc.
+  Qed.
+
+  Lemma rb_remove_conflict_set_bal n : ∀ t s,
+    remove_conflict U n t (set_bal f s) = set_bal f <$> remove_conflict U n t s.
+  Proof.
+    induction n as [|n IHn]; intros t s; [done|].
+    rewrite !rb_remove_conflict_unfold. destruct (U !! t) as [x|]; [|done].
+    assert (Hfold : ∀ l o, foldl (rb_rc_step_out U n t) (set_bal f <$> o) l =
+                           set_bal f <$> foldl (rb_rc_step_out U n t) o l).
+    { induction l as [|i l IHl]; intros o; [done|]. cbn [foldl]. rewrite <- IHl. f_equal.
+      destruct o as [s1|]; simpl; [|done].
+      pose proof (rb_spenders_set_bal n IHn (default [] (unmined_inputs s1 !! (t, i))) (Some s1)) as Hsp.
+      simpl in Hsp. rewrite Hsp.
+      destruct (rb_remove_spenders U n (Some s1) (default [] (unmined_inputs s1 !! (t, i)))); done. }
+    specialize (Hfold (indices (t_outs x)) (Some s)). simpl in Hfold. rewrite Hfold.
+    destruct (foldl (rb_rc_step_out U n t) (Some s) (indices (t_outs x))) as [s4|]; simpl; [|done].
+    by rewrite rb_dui_fold_set_bal.
+  Qed.
+
+  Lemma rb_phaseD_set_bal n cbc s :
+    rb_phaseD U n (set_bal f s) cbc = set_bal f <$> rb_phaseD U n s cbc.
+  Proof.
+    unfold rb_phaseD.
+    change (Some (set_bal f s)) with (set_bal f <$> Some s). generalize (Some s) as o.
+    induction cbc as [|op cbc IH]; intros o; [done|].
+    cbn [foldl]. rewrite <- IH. f_equal.
+    destruct o as [s1|]; simpl; [|done].
+    apply (rb_spenders_set_bal n (rb_remove_conflict_set_bal n) _ (Some s1)).
+  Qed.
+End setbal.
